@@ -40,16 +40,95 @@ func refNoCTL(s string) bool {
 	return true
 }
 
-func refSgr(s string) bool {
-	if s == "" {
-		return false
-	}
+// refSgrch: only the characters of SGR parameters.
+func refSgrch(s string) bool {
 	for _, r := range s {
 		if !(r >= '0' && r <= '9' || r == ';') {
 			return false
 		}
 	}
 	return true
+}
+
+// refSgr: a non-empty SGR parameter string other than the reset parameter "0" (ESC[0m is the cell terminator;
+// keeping it out of the style parameters makes the cell parse of a string unique and equal to the way
+// ansi.expand's regular expression tiles it).
+func refSgr(s string) bool {
+	return s != "" && s != "0" && refSgrch(s)
+}
+
+// refSgrs: a (possibly empty) sequence of SGR sequences ESC[<sgr>m.
+func refSgrs(s string) bool {
+	for len(s) > 0 {
+		if !strings.HasPrefix(s, "\x1b[") {
+			return false
+		}
+		i := strings.IndexByte(s, 'm')
+		if i < 0 || !refSgr(s[2:i]) {
+			return false
+		}
+		s = s[i+1:]
+	}
+	return true
+}
+
+// refP1: exactly one rune that is neither a control character nor a newline (a bare visible cell).
+func refP1(s string) bool {
+	if s == "" || !utf8.ValidString(s) {
+		return false
+	}
+	r, n := utf8.DecodeRuneInString(s)
+	return n == len(s) && !refIsControl(r)
+}
+
+// refIsSpace mirrors unicode.IsSpace.
+func refIsSpace(r rune) bool {
+	switch {
+	case r >= 9 && r <= 13, r == 32, r == 133, r == 160, r == 5760, r >= 8192 && r <= 8202, r == 8232, r == 8233, r == 8239, r == 8287, r == 12288:
+		return true
+	}
+	return false
+}
+
+// refLines: for a cell-language string, the visible lengths of its lines and the number of cells whose rune is
+// not white space.
+func refLines(s string) (ok bool, lines []int, nonSpace int) {
+	lines = []int{0}
+	for len(s) > 0 {
+		if s[0] == '\n' {
+			s = s[1:]
+			lines = append(lines, 0)
+			continue
+		}
+		styled := false
+		for strings.HasPrefix(s, "\x1b[") {
+			i := strings.IndexByte(s, 'm')
+			if i < 0 || !refSgr(s[2:i]) {
+				return false, nil, 0
+			}
+			s = s[i+1:]
+			styled = true
+		}
+		if len(s) == 0 {
+			return false, nil, 0
+		}
+		r, n := utf8.DecodeRuneInString(s)
+		if refIsControl(r) {
+			return false, nil, 0
+		}
+		s = s[n:]
+		lines[len(lines)-1]++
+		if !refIsSpace(r) {
+			nonSpace++
+		}
+		if styled {
+			if !strings.HasPrefix(s, "\x1b[0m") {
+				return false, nil, 0
+			}
+			s = s[4:]
+		}
+	}
+	return true, lines, nonSpace
 }
 
 // refCells parses s in the cell language L; returns ok, number of non-newline cells.
@@ -104,9 +183,28 @@ func strLitFacts(name, lit string) []string {
 	fs = append(fs, fmt.Sprintf("(= (digits %s) %v)", name, refDigits(lit)))
 	fs = append(fs, fmt.Sprintf("(= (noCTL %s) %v)", name, refNoCTL(lit)))
 	fs = append(fs, fmt.Sprintf("(= (sgr %s) %v)", name, refSgr(lit)))
+	fs = append(fs, fmt.Sprintf("(= (sgrch %s) %v)", name, refSgrch(lit)))
+	fs = append(fs, fmt.Sprintf("(= (sgrs %s) %v)", name, refSgrs(lit)))
+	fs = append(fs, fmt.Sprintf("(= (p1 %s) %v)", name, refP1(lit)))
+	if ok2, lines, ns := refLines(lit); ok2 {
+		mx := 0
+		for _, l := range lines {
+			if l > mx {
+				mx = l
+			}
+		}
+		fs = append(fs, fmt.Sprintf("(= (mxl %s) %d)", name, mx), fmt.Sprintf("(= (fstl %s) %d)", name, lines[0]), fmt.Sprintf("(= (lstl %s) %d)", name, lines[len(lines)-1]), fmt.Sprintf("(= (nsc %s) %d)", name, ns))
+		mm := "9223372036854775808" // no interior line
+		for i := 1; i+1 < len(lines); i++ {
+			if v, ok := litInt(mm); !ok || int64(lines[i]) < v {
+				mm = fmt.Sprint(lines[i])
+			}
+		}
+		fs = append(fs, fmt.Sprintf("(= (mmin %s) %s)", name, mm))
+	}
 	return fs
 }
 
 var empFacts = []string{
-	"(= (blen emp) 0)", "(= (nl emp) 0)", "(= (vlen emp) 0)", "(clean emp)", "(wf emp)", "(digits emp)", "(noNL emp)", "(noCTL emp)", "(not (sgr emp))",
+	"(= (blen emp) 0)", "(= (nl emp) 0)", "(= (vlen emp) 0)", "(clean emp)", "(wf emp)", "(digits emp)", "(noNL emp)", "(noCTL emp)", "(not (sgr emp))", "(sgrch emp)", "(sgrs emp)", "(not (p1 emp))", "(= (mxl emp) 0)", "(= (fstl emp) 0)", "(= (lstl emp) 0)", "(= (mmin emp) 9223372036854775808)", "(= (nsc emp) 0)",
 }
